@@ -95,8 +95,8 @@ func (w *verifWorld) checkC02() {
 	verifAssert("C02.shared-idle-not-isolated", notIsolated)
 	verifAssert("C02.shared-idle-within-allowed", sharedAllowed)
 	verifAssert("C02.shared-idle-includes-scope", includesScope)
-	verifAssert("C02.shared-idle-includes-scope.after-refused-allocation", includesScopeAbandoned)
-	verifAssert("C02.shared-idle-includes-scope.after-balloon-deleted", includesScopeDeleted)
+	w.softScopeRefused = verifAnd(w.softScopeRefused, includesScopeAbandoned)
+	w.softScopeDeleted = verifAnd(w.softScopeDeleted, includesScopeDeleted)
 
 	// --- membership and confinement
 	exactlyOne, notListed, confined := true, true, true
@@ -166,7 +166,7 @@ func (w *verifWorld) checkC02() {
 	}
 	verifAssert("C02.nonempty-balloon-has-cpu", hasCpu)
 	verifAssert("C02.balloon-cpus-cover-requests", fits)
-	verifAssert("C02.balloon-cpus-cover-requests.at-max-cpus", fitsCapped)
+	w.softFitsCapped = verifAnd(w.softFitsCapped, fitsCapped)
 
 	// --- CPU classes. CPUs that a refused AllocateResources left idle with a
 	// balloon type's class (see VerifC02History) are judged under their own label.
@@ -194,7 +194,16 @@ func (w *verifWorld) checkC02() {
 	}
 	verifAssert("C02.cpu-class-of-balloon-cpus", balloonClass)
 	verifAssert("C02.cpu-class-of-idle-cpus", idleClass)
-	verifAssert("C02.cpu-class-of-idle-cpus.after-refused-allocation", idleClassAbandoned)
+	w.softClassRefused = verifAnd(w.softClassRefused, idleClassAbandoned)
+}
+
+// assertSoftC02 asserts, for all states checked by checkC02 so far, the
+// sub-claims that have their own labels (see verifWorld).
+func (w *verifWorld) assertSoftC02() {
+	verifAssert("C02.balloon-cpus-cover-requests.at-max-cpus", w.softFitsCapped)
+	verifAssert("C02.shared-idle-includes-scope.after-balloon-deleted", w.softScopeDeleted)
+	verifAssert("C02.shared-idle-includes-scope.after-refused-allocation", w.softScopeRefused)
+	verifAssert("C02.cpu-class-of-idle-cpus.after-refused-allocation", w.softClassRefused)
 }
 
 // VerifC02History: a solver-chosen accepted configuration, then up to `ops`
@@ -238,6 +247,7 @@ func VerifC02History() {
 		case 1:
 			i := verifChoice("victim", len(w.ctrs))
 			if !w.member[i] {
+				w.assertSoftC02()
 				return
 			}
 			nBalloons := len(w.p.balloons)
@@ -255,4 +265,5 @@ func VerifC02History() {
 		}
 		w.checkC02()
 	}
+	w.assertSoftC02()
 }
